@@ -115,4 +115,33 @@ theorem mem_zoomOne (H V : Int) (e o : Ext) (hH : 0 ≤ H) (hV : 0 ≤ V) (heh :
       (mem_vZoomIdx _ _ _ _ hev hV).mpr h3, ?_⟩
     cases o; rfl
 
+theorem nodup_flatMap_map_inj {α β γ} (l : List α) (m : List β) (g : α → β → γ) (hl : l.Nodup) (hm : m.Nodup)
+    (hinj : ∀ a b a' b', g a b = g a' b' → a = a' ∧ b = b') :
+    (l.flatMap fun a => m.map fun b => g a b).Nodup := by
+  rw [List.Nodup, List.pairwise_flatMap]
+  constructor
+  · intro a _
+    exact List.Pairwise.map _ (fun b b' (h : b ≠ b') heq => h (hinj _ _ _ _ heq).2) hm
+  · refine List.Pairwise.imp ?_ hl
+    intro a a' (hne : a ≠ a') x hx y hy heq
+    obtain ⟨b, _, rfl⟩ := List.mem_map.mp hx
+    obtain ⟨b', _, rfl⟩ := List.mem_map.mp hy
+    exact hne (hinj _ _ _ _ heq).1
+
+
+theorem hZoomIdx_nodup (zi x y zo : Int) : (hZoomIdx zi x y zo).Nodup := by
+  unfold hZoomIdx
+  simp only []
+  apply nodup_flatMap_map_inj _ _ (fun yy xx => (xx, yy)) (nodup_irange _ _) (nodup_irange _ _)
+  intro a b a' b' h; simp only [Prod.mk.injEq] at h; exact ⟨h.2, h.1⟩
+
+theorem vZoomIdx_nodup (zi f zo : Int) : (vZoomIdx zi f zo).Nodup := by
+  unfold vZoomIdx; exact nodup_irange _ _
+
+theorem zoomOne_nodup (H V : Int) (e : Ext) : (zoomOne H V e).Nodup := by
+  unfold zoomOne
+  apply nodup_flatMap_map_inj _ _ (fun (p : Int × Int) f' => (⟨H, p.1, p.2, V, f'⟩ : Ext)) (hZoomIdx_nodup _ _ _ _) (vZoomIdx_nodup _ _ _)
+  intro a b a' b' h; simp only [Ext.mk.injEq] at h
+  exact ⟨Prod.ext h.2.1 h.2.2.1, h.2.2.2.2⟩
+
 end SpatialId
